@@ -4020,19 +4020,19 @@ ALL += LS_SPACE_ALL
 # Proofs/C14Source_ScreenAttrs.v, C14Source_SpaceSize.v).  A Screen object is `pyscreen` = (identity, contents) as in the C14 block;
 # its PRIVATE attributes are read-only typed fields: the array / mapping the model screen holds in that place.  The getters'
 # theorems say that each property returns exactly the value the C14 block's _SCREEN_ATTRS primitives gave `s.<attr>`.
-_NO_STORE = "a_getter_of_Screen_never_stores {obj} {val}"          # not a Gallina term: a store to a private attribute is refused by Coq
+_LS_NO_STORE = "a_getter_of_Screen_never_stores {obj} {val}"          # not a Gallina term: a store to a private attribute is refused by Coq
 _LS_SCREEN_PRIVATE = {
-    "_plate_ids": ("pyscreen", "list Z", "s_pids (snd {obj})", _NO_STORE),
-    "_sample_ids": ("pyscreen", "list Z", "s_sids (snd {obj})", _NO_STORE),
-    "_treatment_ids": ("pyscreen", "list (list Z)", "s_tids (snd {obj})", _NO_STORE),
-    "_sample_names": ("pyscreen", "list name", "map r_sample (s_rows (snd {obj}))", _NO_STORE),
-    "_treatment_names": ("pyscreen", "(arr2 name)", "screen_treatment_names (snd {obj})", _NO_STORE),
-    "_treatment_doses": ("pyscreen", "(arr2 Z)", "screen_treatment_doses (snd {obj})", _NO_STORE),
-    "_observations": ("pyscreen", "list Z", "map r_obs (s_rows (snd {obj}))", _NO_STORE),
-    "_observation_mask": ("pyscreen", "list bool", "screen_mask (snd {obj})", _NO_STORE),
-    "_treatment_mapping": ("pyscreen", "tmapping", "s_tmap (snd {obj})", _NO_STORE),
-    "_sample_mapping": ("pyscreen", "nmapping", "s_smap (snd {obj})", _NO_STORE),
-    "_plate_mapping": ("pyscreen", "nmapping", "s_pmap (snd {obj})", _NO_STORE)}
+    "_plate_ids": ("pyscreen", "list Z", "s_pids (snd {obj})", _LS_NO_STORE),
+    "_sample_ids": ("pyscreen", "list Z", "s_sids (snd {obj})", _LS_NO_STORE),
+    "_treatment_ids": ("pyscreen", "list (list Z)", "s_tids (snd {obj})", _LS_NO_STORE),
+    "_sample_names": ("pyscreen", "list name", "map r_sample (s_rows (snd {obj}))", _LS_NO_STORE),
+    "_treatment_names": ("pyscreen", "(arr2 name)", "screen_treatment_names (snd {obj})", _LS_NO_STORE),
+    "_treatment_doses": ("pyscreen", "(arr2 Z)", "screen_treatment_doses (snd {obj})", _LS_NO_STORE),
+    "_observations": ("pyscreen", "list Z", "map r_obs (s_rows (snd {obj}))", _LS_NO_STORE),
+    "_observation_mask": ("pyscreen", "list bool", "screen_mask (snd {obj})", _LS_NO_STORE),
+    "_treatment_mapping": ("pyscreen", "tmapping", "s_tmap (snd {obj})", _LS_NO_STORE),
+    "_sample_mapping": ("pyscreen", "nmapping", "s_smap (snd {obj})", _LS_NO_STORE),
+    "_plate_mapping": ("pyscreen", "nmapping", "s_pmap (snd {obj})", _LS_NO_STORE)}
 _LS_SCREEN = dict(file="src/batchie/data.py", out="SrcScreenAttrs.v", imports="Model.Encode Model.Screen Model.Views Generated.SrcViews",
                   overload=True, pyparams=["self"], vars={})
 LS_SCREEN_GETTERS = [
@@ -4118,3 +4118,37 @@ LS_METRIC_EVALUATE_ALL = dict(
            ("self.evaluate(__x)", "!ev {x}", "V", {"x": _THETA}),
            ("np.array(__l)", "{l}", "list V", {"l": "list V"})])
 ALL += [LS_HOLDER_ITER, LS_METRIC_EVALUATE_ALL]
+# ---- the small functions (wave 6): SimulationTracker.__init__ / save / load (core.py; vocabulary: Model/Tracker.v; generated file
+# Generated/SrcTracker.v; proofs Proofs/C10Source_Tracker.v).  J = a JSON-native value; the object is the triple of its attributes (typed
+# fields); the JSON file is `jfile J`.  Trusted per entry, ONE call each:
+#   open(fn, "w") as f = a new empty file;  open(fn, "r") as f = what the file holds (the parameter `file`)
+#   self.__dict__                the instance dict: the three attributes __init__ assigns, by name, in that order
+#   json.dump(d, f)              the file then holds the object d (a second document in one file: tag 95)
+#   json.load(f)                 the object the file holds (an empty file: tag 95)
+# cls(**data) is the translator's keyword call with ** unpacking (TypeError = tag 93 unless the keys are exactly the parameters).
+_TRK = "(pytracker J)"
+_TRK_FIELDS = {"plate_ids_selected": (_TRK, "J", "tr_plates {obj}", "set_tr_plates {obj} {val}"),
+               "losses": (_TRK, "J", "tr_losses {obj}", "set_tr_losses {obj} {val}"),
+               "seed": (_TRK, "J", "tr_seed {obj}", "set_tr_seed {obj} {val}")}
+_LS_TRACKER = dict(file="src/batchie/core.py", cls="SimulationTracker", out="SrcTracker.v", imports="Model.Tracker", fields=_TRK_FIELDS,
+                   strings=True, strdict_elem="J", type_error=93, key_error=93)
+LS_TRACKER_INIT = dict(
+    _LS_TRACKER, func="__init__", name="src_tracker_init", pyparams=["self", "plate_ids_selected", "losses", "seed"],
+    params=[("J", "Type"), ("self", _TRK), ("plate_ids_selected", "J"), ("losses", "J"), ("seed", "J")], returns=_TRK, vars={},
+    implicit_return="{self}")
+LS_TRACKER_SAVE = dict(
+    _LS_TRACKER, func="save", name="src_tracker_save", pyparams=["self", "fn"],
+    params=[("J", "Type"), ("self", _TRK)], returns="(jfile J)", vars={"f": "(jfile J)"},       # returns what has been written to `fn`
+    contexts=[("open(fn, 'w')", "jfile_new", "(jfile J)")],
+    prims=[("self.__dict__", "tracker_dict self'", "strdict J")],
+    typed_effects=[("json.dump(__d, f)", "f'", "!json_dump {state} {d}", {"d": "strdict J"})],
+    implicit_return="{f}")
+LS_TRACKER_LOAD = dict(
+    _LS_TRACKER, func="load", name="src_tracker_load", pyparams=["cls", "fn"],
+    # file = what `fn` holds; blank = the fresh instance cls.__new__ makes (ANY value: __init__ overwrites all three attributes)
+    params=[("J", "Type"), ("blank", _TRK), ("file", "(jfile J)")], returns=_TRK, vars={"f": "(jfile J)", "data": "strdict J"},
+    contexts=[("open(fn, 'r')", "file", "(jfile J)")],
+    prims=[("json.load(__f)", "!json_load {f}", "strdict J", {"f": "(jfile J)"})],
+    kwcalls={"cls": ("!src_tracker_init J blank {plate_ids_selected} {losses} {seed}", _TRK,
+                     [("plate_ids_selected", "J", None), ("losses", "J", None), ("seed", "J", None)])})
+ALL += [LS_TRACKER_INIT, LS_TRACKER_SAVE, LS_TRACKER_LOAD]
